@@ -12,5 +12,10 @@ CLAIMS = {
         'copies/assignments/const conversions denote the same position, and *(begin+p) is the same sub-view (base and layout) as v[first+p]. For elements(): size, and the ADDRESS obtained by dereferencing after every kind of movement '
         '(++, --, +=, -=, +, -, assignment, copy, const conversion, [], front, back) equals the k-th tuple in canonical order computed by an independent spec. SAT verdict over all positions/offsets in the bounds.',
    note='Bounds: extents<=3, strides<=6, D<=3; elements() laws on zero-based views (index bases are C19). Same trusted base as C01.'),
+ 'C19': dict(
+   text='Creation of index bases (array_ref over explicit extensions, reindexed(f), reindexed(f0..fD-1), blocked, stenciled) on ARBITRARY views yields exactly the specified extension shift and the same elements; '
+        'relational twin: a view re-based by symbolic f in [-2,2]^D and its zero-based twin designate the same elements under shifted indexing, slicing, iteration and elements(); the full C02 elements() laws are re-proved on re-based views. '
+        'The C01 step family and the C02 begin/end laws themselves run with symbolic index bases in [-2,2].',
+   note='Bounds: extents<=3, strides<=6, |base|<=2, D<=3 (elements laws D<=2). Assignment/reextent/equality of re-based OWNING arrays are exercised in C05/C06/C07 harnesses with the FB parameter. Same trusted base as C01.'),
  'C16': dict(not_applicable='every clause is about which C++ expressions are well-formed / what type overload resolution yields (is_assignable, is_invocable, copy-constructibility): const-ness is erased before LLVM IR exists, there is no run-time behaviour to execute symbolically; the deciding procedure is the C++ type checker, not an SMT/SAT solver (DESIGN.md C16)'),
 }
